@@ -84,12 +84,13 @@ theorem lowerL_length (md : Bool) : ∀ (es : List Expr), (lowerL md es).length 
   | e :: es => by simp [lowerL, lowerL_length md es]
 
 theorem isInert_prim {p : Prim} {args : List Expr} (h : isInert (.prim p args) = true) :
-    ∃ f x, p = .fld f ∧ args = [.var x] := by
+    (∃ f x, p = .fld f ∧ args = [.var x]) ∨ (∃ u c, p = .ctor u c ∧ args = []) := by
   unfold isInert at h
   split at h
   · rename_i heq; cases heq
   · rename_i heq; cases heq
-  · rename_i heq; cases heq; exact ⟨_, _, rfl, rfl⟩
+  · rename_i heq; cases heq; exact Or.inl ⟨_, _, rfl, rfl⟩
+  · rename_i heq; cases heq; exact Or.inr ⟨_, _, rfl, rfl⟩
   · rename_i heq; cases heq
   · rename_i heq; cases heq
   · cases h
@@ -147,11 +148,13 @@ theorem sim_inert : ∀ (n : Nat) {a : Expr} {env : Env} {t : Trace} {v : SVal},
       obtain ⟨ht, gv, hg, hr, hp⟩ := hpureCase (by simpa [isPureFor] using hc)
       exact ⟨ht, gv, hg, hr, by simpa [lowerE, isGAtom] using hp⟩
     | prim p args =>
-      obtain ⟨f, x, rfl, rfl⟩ := isInert_prim hin
-      have hnr : isReserved x = false := by simpa [wfE, wfL] using hw
-      have hc := restNames_not_contains (isRName_of_not_reserved hnr) m
-      obtain ⟨ht, gv, hg, hr, hp⟩ := hpureCase (by simpa [isPureFor, isPureForL, isSilentPrim] using hc)
-      exact ⟨ht, gv, hg, hr, by simpa [lowerE, lowerL, isGAtom] using hp⟩
+      rcases isInert_prim hin with ⟨f, x, rfl, rfl⟩ | ⟨u, c, rfl, rfl⟩
+      · have hnr : isReserved x = false := by simpa [wfE, wfL] using hw
+        have hc := restNames_not_contains (isRName_of_not_reserved hnr) m
+        obtain ⟨ht, gv, hg, hr, hp⟩ := hpureCase (by simpa [isPureFor, isPureForL, isSilentPrim] using hc)
+        exact ⟨ht, gv, hg, hr, by simpa [lowerE, lowerL, isGAtom] using hp⟩
+      · obtain ⟨ht, gv, hg, hr, hp⟩ := hpureCase (by simp [isPureFor, isPureForL, isSilentPrim])
+        exact ⟨ht, gv, hg, hr, by simpa [lowerE, lowerL, isGAtom] using hp⟩
     | lam ps b =>
       simp only [stepExpr, Res.pure, Option.some.injEq, Prod.mk.injEq] at hstep
       obtain ⟨rfl, rfl⟩ := hstep
